@@ -55,7 +55,10 @@ SUBSET_FALLBACK = "clad"
 # strategies
 
 _growth = st.one_of(st.sampled_from([0.9, 0.95, 1.0, 1.05, 1.1]), st.floats(0.9, 1.1, allow_nan=False))
-_point = st.tuples(st.floats(0.05, 0.95), st.floats(25.0, 600.0).map(lambda x: round(x, 1))).map(list)
+# special temperatures are over-weighted: exactly 0.0 degC (a falsy float), the ends of the materials' validity windows
+# (Zr 293 K, InconelX750 21.1 C, B4C 25..500 C; outside them armi only warns), and repeated values
+_temp = st.one_of(st.sampled_from(gen.SPECIAL_TEMPS), st.floats(0.0, 600.0).map(lambda x: round(x, 1)))
+_point = st.tuples(st.floats(0.05, 0.95), _temp).map(list)
 
 
 def _step(kinds, modes):
@@ -66,6 +69,8 @@ def _step(kinds, modes):
             "g": st.lists(_growth, min_size=1, max_size=14),
             "subset": st.integers(0, 5),
             "pts": st.lists(_point, min_size=1, max_size=8),
+            # isothermal field at a special temperature (None = use the points' temperatures)
+            "iso": st.sampled_from([None, None, None, 0.0, 0.0] + gen.SPECIAL_TEMPS),
             "inverse": st.booleans(),
             "setFuel": st.booleans(),
             "fresh": st.booleans(),
@@ -235,6 +240,8 @@ class Run:
     def thermal_plan(self, step):
         """(tempGrid, tempField, new block temperatures) from the step's points and the current mesh."""
         pts = step["pts"]
+        if step.get("iso") is not None:
+            pts = [[f, step["iso"]] for f, _T in pts]
         L = len(pts)
         grid, field, temps = [], [], []
         for i, b in enumerate(self.a):
@@ -489,6 +496,14 @@ class Run:
             return False
         prior = [sorted({float(c.temperatureInC) for c in b}) for b in self.a]
         out.label("step:thermal")
+        if step.get("iso") is not None:
+            out.label("thermal:isothermal")
+        if any(float(self.comp(i, n).temperatureInC) == 0.0 for i in range(m.nb) for n in m.solids[i]):
+            out.label("thermal:from-0C")
+        if any(T == 0.0 for T in temps):
+            out.label("thermal:to-0C")
+        if all(float(self.comp(i, n).temperatureInC) == temps[i] for i in range(m.nb) for n in m.solids[i]):
+            out.label("thermal:no-change")
         before = self.apply_thermal(step, grid, field, temps, g, "field")
         if step["inverse"] and all(len(p) == 1 for p in prior):
             # the field that puts every block back to its former (block-uniform) temperature
